@@ -205,11 +205,7 @@ Proof.
 Qed.
 
 Lemma Z_sub_laws : SubLaws Z.sub Z.ltb 0%Z.
-Proof.
-  constructor; unfold L1DValues.le.
-  - intros a a' b b' H1 H2. apply Z.ltb_ge in H1, H2. apply Z.ltb_ge. lia.
-  - intros a b H. apply Z.ltb_ge in H. apply Z.ltb_ge. lia.
-Qed.
+Proof. exact SubLaws_Z. Qed.
 
 (* ---- non-vacuity: a concrete history (pending point cutting an evaluated
         interval, an ask, a discard) is legal, so the invariant applies ---- *)
